@@ -6,6 +6,7 @@
 From Coq Require Import List String.
 From KV Require Import LockDiscipline LockDisciplineProofs LocksFacts.
 From KV.gen Require Import Locks.
+From KV.gen Require LockLeaks.
 Import ListNotations.
 
 (* consistent lockset => no data race, on every trace that respects mutual exclusion *)
@@ -49,3 +50,9 @@ Theorem C07_ordered_traces_deadlock_free : forall tr pend,
   ~ wait_cycle (run [] tr) pend.
 Proof. exact LocksFacts.C07_ordered_traces_deadlock_free. Qed.
 Print Assumptions C07_ordered_traces_deadlock_free.
+
+(* no way out of an explicit Lock()/Unlock() region leaves the mutex locked (generated table) *)
+Theorem C07_no_lock_left_on_exit :
+  forallb (fun r => existsb (row_eqb r) known_lock_holders) LockLeaks.lock_leaks = true.
+Proof. exact LocksFacts.C07_no_lock_left_on_exit. Qed.
+Print Assumptions C07_no_lock_left_on_exit.
